@@ -58,6 +58,18 @@ def gen_cases(rng, tier):
         w = flat(recs)
         yield case("req_run", [64], [42], w, [1] * len(w)), ["req", "gv-split"]
         yield case("req_run", [64], [42], w, []), ["req", "gv-split"]
+    # a GetValues body whose LAST pair is cut short, with the missing bytes of a known variable name sitting in the record's
+    # padding (padding content is arbitrary by the specification): nothing outside the body may be interpreted
+    for name in (b"FCGI_MAX_CONNS", b"FCGI_MAX_REQS", b"FCGI_MPXS_CONNS"):
+        for k in range(1, len(name)):
+            for where in ("idle", "params"):
+                body = nv(list(b"FCGI_MAX_REQS"), []) * rng.choice([0, 1]) + [len(name), 0] + list(name[:k])
+                tail = list(name[k:]) + [0] * rng.choice([0, 3])
+                gv = header(GETVALUES, 0, len(body), len(tail)) + body + tail
+                pre = minimal_preamble(1, 1, pairs=[(b"A", b"b")])
+                w = (gv + flat(pre)) if where == "idle" else (flat(pre[:1]) + gv + flat(pre[1:]))
+                for sched in ([], [1] * len(w), [len(gv)] if where == "idle" else [len(flat(pre[:1])) + len(gv)]):
+                    yield case("req_run", [64], [9], w, sched), ["req", "gv-tail-spill"]
     for _ in range(300 if quick else 20000):
         rid = rng.choice([1, 65535])
         role = rng.choice([1, 2, 3])
@@ -83,7 +95,7 @@ def nontrivial(line, tags):
 
 
 def min_classes(tier):
-    return {"unknown-type": 1000, "gv-split": 100, "abort": 80, "str": 250}
+    return {"unknown-type": 1000, "gv-split": 100, "abort": 80, "str": 250, "gv-tail-spill": 200}
 
 
 def expected_req_output(wire, maxc):
